@@ -59,7 +59,7 @@ def run(tier, seed, only=None):
     E, A = core.Entity, core.Attribute
     rep.fn(E._db_set_, A.db_set, A.db_update_reverse, A.load, A.__get__, A.__set__, A.parse_value, core.EntityMeta._fetch_objects,
            core.EntityMeta._parse_row_, core.EntityMeta._find_by_sql_, core.EntityMeta._initialize_bits_, core.EntityMeta._set_rbits,
-           E._save_updated_, E._update_dbvals_, core.SessionCache.flush_disabled, dp.RealConverter.dbvals_equal, dp.Converter.dbvals_equal)
+           E._save_updated_, E._update_dbvals_, core.SessionCache.flush_disabled, core.Query._actual_fetch, dp.RealConverter.dbvals_equal, dp.Converter.dbvals_equal)
     os.environ.pop('C20_MUTANT', None)                            # canary hook (development only) is never active here
     T = 150 if tier == 'quick' else 900
     if tier == 'thorough': os.environ['C21_FULL'] = '1'          # read by checks/h_c21.py in the worker processes
@@ -72,13 +72,16 @@ def run(tier, seed, only=None):
         'reload': 'one re-fetch of the same key; changed column value symbolic (any 32-bit int / finite float in [-1e9, 1e9] / NULL / reference 7, 8, NULL); '
                   'with and without flush_disabled',
         'row shapes': 'thorough: every NULL shape of n and g' if tier == 'thorough' else 'NULL shapes of the attribute under test symbolic, the others fixed (n NULL, g = G[7])',
+        'inheritance': 'Student row known via base query on subclass attribute / subclass query / base query on base attribute / key; obj.gpa read or not; one changed column (age, gpa, course), any 32-bit value',
+        'collections (concrete ties only)': 'one-to-many, fully loaded by iteration / len() / bool() / list(), item moved away by a second connection',
         'one-to-one': 'how p.partner became known (attribute load / Q[10] loaded by key), Q[10].p read or not, change in {link Q[11], unlink Q[10], both orders}',
     }
     rep.assumptions = [
         'environment argument: concurrent committed writers reach the session only through rows fetched by its later queries (arbitrary re-fetched row)',
         'fake DB-API of checks/h_c20.py; the UPDATE of an auto-flush is answered with rowcount 1 and the re-fetched row then starts from the flushed values',
         'pony.orm.core.time stubbed; pony.orm.core.deduplicate replaced by the identity function; Database._ast2sql runs outside the CrossHair tracer',
-        'known regions are split off into their own strict harnesses (reload_g_pending, o2o_relink_untracked, o2o_none_then_linked) so that the '
+        'HashableDict.__hash__ (query cache keys, concrete values only) runs outside the CrossHair tracer (CrossHair models hash(str) as symbolic)',
+        'known regions are split off into their own strict harnesses (reload_g_pending [repaired in /repo], o2o_relink_untracked, o2o_none_then_linked) so that the '
         'remaining harnesses still decide everything else',
     ]
     rep.trusted = ['crosshair-tool 0.0.110', 'z3', 'reference statement T0-T3 and the fake row server in checks/h_c21.py']
@@ -122,10 +125,20 @@ def run_case(name, qrows):
 
             def before_update(self):           # hooks run while flushing is disabled
                 E.select()[:]
+
+        class Team(db.Entity):
+            id = PrimaryKey(int)
+            members = Set('Member')
+
+        class Member(db.Entity):
+            id = PrimaryKey(int)
+            team = Required(Team)
         path = os.path.join(d, 'c21.sqlite')
         db.bind('sqlite', path, create_db=True)
         db.generate_mapping(create_tables=True)
         other = sqlite3.connect(path, timeout=1)
+        other.executemany('INSERT INTO "Team" VALUES (?)', [(1,), (2,)])
+        other.executemany('INSERT INTO "Member" VALUES (?, ?)', [(1, 1), (2, 1)])
         other.executemany('INSERT INTO "P" VALUES (?)', [(1,), (2,)])
         other.executemany('INSERT INTO "G" VALUES (?)', [(7,), (8,)])
         other.execute('INSERT INTO "E" ("id", "a", "g") VALUES (1, 5, 7)')
@@ -157,6 +170,23 @@ def run_case(name, qrows):
             other.execute('UPDATE "E" SET "g" = NULL'); other.commit()
             commit()                            # T[1].before_update re-fetches E[1]
             return (e.g,)
+
+        def collection(first):
+            # a fully loaded one-to-many collection is observed by iteration; another connection moves Member[2] to Team[2];
+            # the session re-fetches the Member rows and iterates again (outside the symbolic part of C21: concrete only)
+            t = Team[1]
+            if first == 'len': len(t.members)
+            elif first == 'bool': bool(t.members)
+            elif first == 'list': list(t.members)
+            v1 = sorted(m.id for m in t.members)
+            other.execute('UPDATE "Member" SET "team" = 2 WHERE "id" = 2'); other.commit()
+            Member.select_by_sql('SELECT * FROM "Member"')
+            return v1, sorted(m.id for m in t.members)
+
+        def coll_iter(): return collection(None)
+        def coll_len_iter(): return collection('len')
+        def coll_bool_iter(): return collection('bool')
+        def coll_list_iter(): return collection('list')
         try:
             with db_session: out = ('values',) + tuple(repr(v) for v in locals()[name]())
         except Exception as e:
@@ -176,7 +206,11 @@ def acceptable(out):
 CASES = [('plain attribute changed by another connection, re-fetched', 'plain', [], None),
          ('one-to-one relinked by another connection', 'relink', [(10, 1), (11, None)], 'one-to-one-reverse-side-not-read-tracked'),
          ('one-to-one read as None, then linked by another connection', 'none_then_linked', [(10, None)], 'unrepeatable-read-surfaces-as-assertion-error'),
-         ('re-assigned reference re-fetched by a before_update hook', 'pending_ref', [], 'keyerror-on-refetch-of-reassigned-reference')]
+         ('re-assigned reference re-fetched by a before_update hook', 'pending_ref', [], 'keyerror-on-refetch-of-reassigned-reference'),
+         ('one-to-many collection observed by iteration, item moved away by another connection', 'coll_iter', [], None),
+         ('collection loaded by len(), observed by iteration, item moved away', 'coll_len_iter', [], None),
+         ('collection loaded by bool(), observed by iteration, item moved away', 'coll_bool_iter', [], None),
+         ('collection loaded by list(), observed by iteration, item moved away', 'coll_list_iter', [], None)]
 
 
 def ties(rep):
